@@ -591,7 +591,7 @@ def fam_aggregation(d, seed):
         s = d.get('scaling', 'none')
         if s == 'none':
             return None
-        return pym.AggScaling(s, damping=0.0)
+        return pym.AggScaling(s, damping=d.get('damping', 0.0))
 
     def make():
         sx = pym.Signal('x', x0.copy())
@@ -602,6 +602,12 @@ def fam_aggregation(d, seed):
             m = pym.SoftMinMax(sx, pym.Signal('y'), alpha=par, **kw)
         else:
             m = pym.KSFunction(sx, pym.Signal('y'), rho=par, **kw)
+        if d.get('warm'):
+            # damped scaling has a memory: the module has already seen another input, so its scaling factor differs from
+            # the ratio at the input it is evaluated at afterwards
+            sx.state = val.pos(n, 41, seed, 0.5, 2.5)
+            m.response()
+            sx.state = x0.copy()
         return m, [sx], m.sig_out
 
     def freeze(m):
@@ -611,6 +617,7 @@ def fam_aggregation(d, seed):
     # admissibility of the active set under the difference step is checked by the caller through `margin`
     sp = Spec(fam, make, [Inp(x0)], linear=False, h=1e-3, freeze=freeze)
     sp.active = d.get('active', 'none')
+    sp.response_has_memory = bool(d.get('damping'))    # a repeated response() changes the output (documented damping)
     return sp
 
 
@@ -762,6 +769,9 @@ def lattice(tier, seed):
             for sc in ('none', 'min', 'max'):
                 for act in ('none', 'band', 'counts'):
                     yield dict(fam=fam, param=par, scaling=sc, active=act, n=6)
+    for fam, pars in (('PNorm', (3, -2)), ('SoftMinMax', (2.0, -3.0)), ('KSFunction', (2.0, -3.0))):
+        for par in pars:
+            yield dict(fam=fam, param=par, scaling='max' if par > 0 else 'min', active='none', n=6, damping=0.5, warm=True)
     for mode in ('objective', 'minval', 'maxval'):
         for shp in ('py', 'np0', 'vec'):
             yield dict(fam='Scaling', mode=mode, shape=shp)
